@@ -365,7 +365,8 @@ impl<K: KeyT, V: ValT> MapRunner<K, V> {
     pub fn new() -> Self {
         MapRunner {
             a: Some(new_map()),
-            b: Some(new_map()),
+            // the two collections use distinct allocator instances (ownership of blocks is per instance)
+            b: Some(HashMap::with_hasher_in(IdBuild, TapeAlloc { id: 1 })),
             ra: RefMap::new(),
             rb: RefMap::new(),
             preds: Default::default(),
@@ -948,6 +949,9 @@ impl<K: KeyT, V: ValT> Runner for MapRunner<K, V> {
         }
         if let Some(why) = self.capacity_step(tgt, name, args, &clean, &before, &evs) {
             ret.push_str(&format!(" ORACLE-CAP({})", why.replace(' ', "_")));
+        }
+        for why in tape::with(|t| std::mem::take(&mut t.alloc_errors)) {
+            ret.push_str(&format!(" ORACLE-ALLOC({})", why.replace(' ', "_")));
         }
         if !self.leak_ok {
             let held: usize = tape::with(|t| t.live_blocks.values().map(|(s, _)| *s).sum());
